@@ -538,14 +538,20 @@ class SplineParser(object):
         self.tie_prev = np.zeros(note_num, dtype=bool)
         notes = np.vectorize(self.meta_note_line, otypes=[object])(spline[note_mask])
         self.total_duration_values[note_mask] = self.note_duration_values
-        # Notes should appear in order within stream so shift tie_next by one to the right
-        # and tie next and inversingly tie_prev also
+        # A note that ends or continues a tie ("]" or "_") is tied to the closest
+        # preceding note of the same pitch that starts or continues one ("[" or "_").
         # Case of note to chord tie or chord to note tie is not handled yet
-        for note, to_tie in np.c_[
-            notes[self.tie_next], notes[np.roll(self.tie_next, -1)]
-        ]:
-            to_tie.tie_next = note
-            note.tie_prev = to_tie
+        open_ties = {}
+        for note, ends_tie, starts_tie in zip(notes, self.tie_next, self.tie_prev):
+            if not isinstance(note, spt.Note):
+                continue
+            pitch = (note.step, note.alter or 0, note.octave)
+            if ends_tie and pitch in open_ties:
+                to_tie = open_ties.pop(pitch)
+                to_tie.tie_next = note
+                note.tie_prev = to_tie
+            if starts_tie:
+                open_ties[pitch] = note
 
         elements[note_mask] = notes
 
